@@ -123,7 +123,8 @@ def world_s2i(ctx, prop, replay_path, variants, label, defer=None):
         "behaviours": st["behaviours"], "runs": st["runs"], "calls_compared": st["calls"], "agree": st["agree"],
         "disagree": st["disagree"], "ops": st["ops"], "blocks_also_validated_by_TLC": st["blocks_written"],
         "runs_on_rayon_worker": st["runs_on_rayon_worker"],
-        "calls_issued_from_a_destructor_while_unwinding": st["calls_issued_while_unwinding"]})
+        "calls_issued_from_a_destructor_while_unwinding": st["calls_issued_while_unwinding"],
+        "closing_releases_observed": st.get("closing_releases", 0)})
     ctx.cov["traces_validated_against_impl"] += st["runs"]
     for s in st["samples"][:1]:
         ctx.sample({"kind": "TLC behaviour replayed call by call on the real World (outcome and state equal)", "history": s})
@@ -155,7 +156,8 @@ def world_random(ctx, prop, blocks, length, seed_off=0):
     ctx.cov["impl_runs"].append({"kind": "impl->spec random single-thread histories (4 types x 3 dynamic ids)",
                                  "blocks": st["blocks"], "calls": st["calls"], "ops": st["ops"], "outcomes": st["outcomes"],
                                  "aborted_blocks": st["aborted_blocks"], "blocks_on_rayon_worker": st["blocks_on_rayon_worker"],
-                                 "calls_issued_from_a_destructor_while_unwinding": st["calls_issued_while_unwinding"]})
+                                 "calls_issued_from_a_destructor_while_unwinding": st["calls_issued_while_unwinding"],
+        "closing_releases_observed": st.get("closing_releases", 0)})
     ctx.sample({"kind": "start of a random history on the real World (validated by WorldTrace)", "calls": st["samples"]})
     world_validate(ctx, prop, out, 4, 3, "random")
     ctx.cov["traces_validated_against_impl"] += st["blocks"]
